@@ -19,6 +19,13 @@ theorem split_points_valid (len : Nat) (s0 s1 : Spec) :
     (∀ n e, s0.len ≤ advertised (.bluesteins n) e len s0 s1) :=
   exec_split_points_valid len s0 s1
 
+/-- … and the same for the crate-private SIMD algorithms the AVX planner builds -/
+theorem split_points_valid_simd (len : Nat) (s0 s1 : Spec) :
+    len ≤ advertised .avxMixedRadix .inplace len s0 s1 ∧ len ≤ advertised .avxMixedRadix .immut len s0 s1 ∧
+    (len = s0.len + 1 → len ≤ advertised .avxRaders .inplace len s0 s1 ∧ len ≤ advertised .avxRaders .immut len s0 s1) ∧
+    (∀ n e, s0.len ≤ advertised (.avxBluesteins n) e len s0 s1) :=
+  exec_split_points_valid_simd len s0 s1
+
 /-- (4) every region handed to an inner call lies inside the outer buffer it names -/
 theorem calls_in_bounds (a : Algo) (e : EntryKind) (len : Nat) (s0 s1 : Spec) (h : Shape a len s0 s1) :
     ∀ c ∈ calls a e len s0 s1 (advertised a e len s0 s1),
@@ -37,11 +44,12 @@ example : calls .raders .inplace 8 ⟨7, 9, 0, 0⟩ ⟨0, 0, 0, 0⟩ 16 =
 
 /-- (5) within one call the transformed region, the output region and the scratch region are pairwise disjoint —
 the aliasing discipline the `&mut` borrows express.  (Holds for every `adv`, and without assuming the regions are
-non-empty.) -/
-theorem calls_disjoint (a : Algo) (e : EntryKind) (len : Nat) (s0 s1 : Spec) (adv : Nat) :
+non-empty; `0 < len` because a length-0 instance never runs a chunk — `RadersAvx2` would panic in
+`split_first_mut().unwrap()` there.) -/
+theorem calls_disjoint (a : Algo) (e : EntryKind) (len : Nat) (s0 s1 : Spec) (adv : Nat) (hl : 0 < len) :
     ∀ c ∈ calls a e len s0 s1 adv,
       c.data.Disjoint c.scratch ∧ (∀ r, c.out = some r → c.data.Disjoint r ∧ r.Disjoint c.scratch) :=
-  exec_calls_disjoint a e len s0 s1 adv
+  exec_calls_disjoint a e len s0 s1 adv hl
 
 theorem region_disjoint_iff (r1 r2 : Region) :
     r1.Disjoint r2 ↔ (r1.buf ≠ r2.buf ∨ r1.off + r1.len ≤ r2.off ∨ r2.off + r2.len ≤ r1.off) := Iff.rfl
